@@ -202,6 +202,10 @@ def run(ctx, shared=True):
         reuse(ctx, c11.run, ("C11.prime",), "C14res", "resume-route rule shared with C11: the population a resumed instance continues from is the checkpoint read in the same pass as the flow it loaded, "
               "and it is forwarded exactly when the caller gave none")
     if shared:
+        from . import cachecoh
+        cachecoh.rule(ctx, "C14.stale", ("aspire.flows",), "the run keeps weighting particles under the flow the cached callable was built from while save_flow() writes the refitted one: "
+                      "the checkpoint's log_q values are not those of the /flow stored next to it")
+    if shared:
         from . import c04 as _c04
         reuse(ctx, _c04.run, ("C04.wire",), "C14wire", "wiring rule shared with C04: the configuration comes back from the file with its mappings in HDF5 (sorted) key order; transforms that "
               "take bounds in mapping order instead of parameter order are rebuilt with another parameter's bounds after resume_from_file, so the reloaded instance contradicts the checkpoint next to it")
@@ -259,6 +263,9 @@ MUTANTS += [
 ]
 MUTANTS += [
     M("bounds stacked in mapping order", "src/aspire/transforms.py", "[self.prior_bounds[p][0] for p in parameters]", "[v[0] for v in self.prior_bounds.values()]", "C14wire.wire"),
+]
+MUTANTS += [
+    M("flowjax proposal keeps a compiled log_prob across refits", "src/aspire/flows/jax/flows.py", "log_prob = self._flow.log_prob(x_prime)\n        x, log_abs_det_jacobian = self.inverse_rescale(x_prime)", "if getattr(self, \"_lp\", None) is None:\n            self._lp = self._flow.log_prob\n        log_prob = self._lp(x_prime)\n        x, log_abs_det_jacobian = self.inverse_rescale(x_prime)", "C14.stale"),
 ]
 NEUTRALS = [
     M("flow existence test mirrored", _A, "if self.flow is not None:\n                    # Always store", "if not (self.flow is None):\n                    # Always store"),
